@@ -290,6 +290,14 @@ func Ite(c, a, b bool) bool {
 	return b
 }
 
+// LowerByte is ASCII lower-casing of one byte, without branching.
+func LowerByte(c byte) byte {
+	if c >= 'A' && c <= 'Z' {
+		return c + 32
+	}
+	return c
+}
+
 // ReachIf is Reach under a condition, without forking: the label counts as reached if
 // the condition is satisfiable on some path.
 func ReachIf(cond bool, label string) {
